@@ -629,6 +629,29 @@ func gluecacheGen(r *Rng, c *cCase, i int, tier string) {
 		last.Steps[0].Mode = "default"
 	}
 	g.Procs = append(g.Procs, last)
+	if g.RepoB {
+		// globalApkCache remembers the outcome of a package fetch — also its ERROR — per URL for the rest of the
+		// process (builds over the disk cache only): after an offline build that failed because a package of its image
+		// is not in the cache, every later build of that process that needs the package fails with the remembered
+		// error, online as well.  With two repositories such offline builds are common (an index revision is cached
+		// by a build that installed the other repository's app); like after a cut index download the history
+		// continues in a fresh process (recorded as an observation, not judged).
+		var procs []gluecacheProc
+		for _, p := range g.Procs {
+			cur := gluecacheProc{}
+			for _, st := range p.Steps {
+				cur.Steps = append(cur.Steps, st)
+				if st.Offline {
+					procs = append(procs, cur)
+					cur = gluecacheProc{}
+				}
+			}
+			if len(cur.Steps) > 0 {
+				procs = append(procs, cur)
+			}
+		}
+		g.Procs = procs
+	}
 	c.Glue = g
 }
 
